@@ -123,16 +123,16 @@ var errIsCtx = func(err error) bool {
 // standard-library frames between panic() and the engine code that caused it.
 func topFrame(stack string) (fn, where string) {
 	lines := strings.Split(stack, "\n")
-	seenPanic := false
-	for i := 0; i+1 < len(lines); i++ {
+	// planbuilder recovers and re-panics (Builder.Parse / bindOnly), so a stack can contain
+	// several panic( lines; the original one is the last (outermost in time = deepest in the trace)
+	start := -1
+	for i, l := range lines {
+		if strings.HasPrefix(strings.TrimSpace(l), "panic(") {
+			start = i
+		}
+	}
+	for i := start + 1; start >= 0 && i+1 < len(lines); i++ {
 		l := strings.TrimSpace(lines[i])
-		if strings.HasPrefix(l, "panic(") {
-			seenPanic = true
-			continue
-		}
-		if !seenPanic {
-			continue
-		}
 		k := strings.LastIndex(l, "(")
 		if k <= 0 || !strings.HasSuffix(l, ")") {
 			continue
